@@ -2,22 +2,39 @@
 
 Everything runs the real nfc.clf.ContactlessFrontend (connect/sense/listen/exchange), the real nfc.tag.activate(),
 nfc.dep and nfc.llcp.llc over vf.sim.world.WorldDevice (a simulated world: tags, NFC-DEP peers, readers) on a
-virtual clock.  Three kinds of cases:
+virtual clock.  Kinds of cases:
 
   connect   option dictionaries x environment x time at which terminate() turns true.  Monitors:
+            - activation ground truth that does not depend on the user callbacks: the results of the three
+              activation functions connect() relies on (nfc.tag.activate, LogicalLinkController.activate,
+              nfc.tag.emulate) are recorded (watch_activations), and the world tells which entity answered a
+              discovery.  An activation that succeeded is followed by on-connect (default on-connect: it is open
+              from then on), on-connect is called only for an activation that has just succeeded and gets its
+              object, a true on-discover is followed by the activation function, an activation is reported only
+              when a counterpart of the right kind answered since the previous one
             - trace automaton over the recorded callback log:
                  on-startup (once per option given, before any driver call and any other callback)
                  then activations:  on-discover -> on-connect -> [on-release iff on-connect returned true]
-              on-release count == count of true on-connect results, nothing after the final callback
+              on-release count == count of true on-connect results, nothing after the final callback, no new
+              discovery while an activation awaits on-release
             - return value table built from the "Return Value" section and the option descriptions of the
-              connect() docstring (sentences quoted at the clauses below)
-            - promptness after terminate() returned true, counted in frontend discovery calls (never wall time):
-              (c) at most one residual cycle (<= one further rdwr sense / dep listen / card listen); when
-              terminate() was polled true while no activation was open, no further discovery and no callback at
-              all; terminate() is either "true from its j-th call on" or "true from virtual time T on" - with the
-              latter a connect() that stops asking is caught by the driver-call bound
+              connect() docstring (sentences quoted at the clauses below); True only after an activation
+            - promptness after terminate() returned true, counted in frontend discovery calls and virtual seconds
+              (never wall time): (c) at most one residual cycle (<= one further rdwr sense / dep listen / card
+              listen); when terminate() was polled true while no activation was open, no further discovery and no
+              callback at all; when it was polled true inside an open activation, that activation ends (on-release)
+              within PROMPT_VSEC virtual seconds - also against a peer that keeps the NFC-DEP link busy and never
+              releases it; terminate() is "true from its j-th call on", "true from virtual time T on", true once
+              and false again, returns truth values that are not bool, or is not given at all (then the world ends
+              the run) - a connect() that stops asking is caught by the driver-call bound
             - default on-discover of rdwr without an llcp option activates every tag (docstring sentence)
-            - no data exchange between on-release and the next discovery; beep-on-connect on/off
+            - no data exchange between on-release and the next discovery; beep-on-connect on/off per activation;
+              every data exchange inside connect() carries the target of the latest discovery
+  sustained connect() calls that go through 2..6 and more activations (tags that leave and come back, peers and
+            readers that can be activated several times, a tag and a peer taking turns, callback results that change
+            from call to call, terminate index up to 40): state leaking from one activation into the next
+  stubborn  terminate() turning true while the remote NFC-DEP Initiator ignores the LLCP DISC and keeps sending
+            DEP_REQ information / attention PDUs (or the remote Target answers DISC with SYMM and ignores DSL_REQ)
   combo     connect() again, as a grid: state of each option group (absent / kept / removed by its own on-startup
             returning None, False or a wrong type; rdwr with default, true or false on-discover; llcp with each
             role) x one device class (nothing, Type A with SEL_RES 00h/20h/40h/60h, Type 1, Type B, FeliCa without
@@ -29,18 +46,29 @@ virtual clock.  Three kinds of cases:
             option removed by its on-startup is "not present" for rdwr's default on-discover), and with a single
             handler the return value follows from its callbacks' results.
   sense     target lists mixing supported / unsupported (decided by the driver) / invalid targets:
-            no exception for >= 2 targets, first target found in the order given, field off (mute() is the last
-            driver call) when nothing was found, `iterations` passes spaced by `interval` on the virtual clock.
+            no exception for >= 2 targets (boundary (d): only the invalid target itself may raise ValueError), first
+            target found in the order given, field off (mute() is the last driver call) when nothing was found,
+            `iterations` passes spaced by `interval` on the virtual clock.
             Also run over every real driver class that can be instantiated on a stub host link (pn531, pn532,
-            pn533, rcs956, acr122, arygon, rcs380, udp), because "unsupported" is decided by the driver.
-  exchange  sequences of sense/listen/exchange on one frontend: the target object the Device receives is the
-            one found by the most recent sense/listen; after a discovery that found nothing (or raised)
+            pn533, rcs956, acr122, arygon, rcs380, udp), because "unsupported" is decided by the driver; the stub
+            finds nothing, a Type A, Type B or Type F target or an active mode DEP target.
+  exchange  sequences of sense (with and without keyword options, sense_dep targets) / listen (listen_dep) / short
+            connect() runs / exchange on one frontend: the target object the Device receives is the one found by
+            the most recent sense/listen - whoever called it; after a discovery that found nothing (or raised)
             exchange() returns None without a driver call.
+  xrace     two threads on one frontend: exchange() has been entered, another thread's sense()/listen() gets the
+            frontend lock first (a delegating stand-in for clf.lock lets the harness decide the winner) and finds
+            nothing / something else; the exchange() that proceeds afterwards must not hand the driver the target
+            of the earlier discovery.
 
 Oracle boundary (DESIGN C18): (a) no device -> IOError(ENODEV); (b) a true on-release value is passed through,
-a false one lets the loop continue; (c) promptness in calls; (d) targets with invalid attributes are not judged.
-Not demanded (the docstrings do not say it): on-release after an exception ended connect() (KeyboardInterrupt,
-IOError); what happens for on-startup results of other types than documented.
+a false one lets the loop continue; (c) promptness in calls / virtual seconds; (d) targets with invalid attributes
+are not judged (a ValueError they raise themselves; anything another target of the list raises is judged).
+(e) Not demanded (the docstrings do not say it): on-release after an exception ended connect() (KeyboardInterrupt,
+IOError from the driver: connect() returns False and an open activation stays without on-release; counted as
+release_skipped_by_exception); what happens for on-startup results of other types than documented.
+The world extensions of this module (a tag that comes back, peers that never release) are subclasses registered in
+vf.sim.world.ENTITY_CLASSES by world_mod().
 """
 import errno
 
@@ -58,7 +86,12 @@ RULE = ("cases = (a) connect(): random points of the product rdwr x llcp x card 
         "remaining dimensions (which non-object on-startup result, every callback default/true/false/None/wrong "
         "type, target lists, device stays/leaves) sampled per cell, judged against a reference model of the "
         "docstring; (b) sense() target lists over the world "
-        "device and over each real driver on a stub host link; (c) sense/listen/exchange sequences.  A case is "
+        "device and over each real driver on a stub host link (nothing / Type A / B / F / DEP target found); (c) "
+        "sense/listen/connect/exchange sequences; (d) sustained connect() runs with 2..6+ activations (devices that "
+        "come back, two groups taking turns, per-call callback results); (e) a peer that never releases the NFC-DEP "
+        "link x time of terminate(); (f) terminate() shapes (non-bool truth values, true once, not given); (g) the "
+        "grid first discovery x second discovery of another thread that wins the frontend lock against an "
+        "exchange() already entered.  A case is "
         "distinct by its full description and non-trivial if the deciding monitor was reached (connect returned or "
         "raised and the trace was checked; sense reached the driver; an exchange was judged)")
 ASSUMPTIONS = ["vf.sim.world is a faithful reading of the Device interface documentation and of the NFC-DEP/LLCP/"
@@ -71,28 +104,61 @@ ASSUMPTIONS = ["vf.sim.world is a faithful reading of the Device interface docum
                "polls); card emulation exists for Type 3 Tags only; the NFC-DEP Initiator meets passive targets at "
                "106A and, unless brs=0, at 212F",
                "terminate() polled true while an activation is open may still end with the on-release value "
-               "(docstring: 'wait until the tag is no longer present and then return True') or with None"]
+               "(docstring: 'wait until the tag is no longer present and then return True') or with None",
+               "the results of nfc.tag.activate / LogicalLinkController.activate / nfc.tag.emulate are what connect() "
+               "bases its callbacks on (they are wrapped, not replaced); 'promptly' inside an open activation = "
+               "PROMPT_VSEC (3) virtual seconds, nfcpy's own deactivation waits are 1 s (Target) and 0.6 s (Initiator)",
+               "sustained 'live' cases: a single device that can be activated at least three times (a tag that comes "
+               "back after <= 3 discoveries, a peer / reader with >= 3 sessions) and that only one option group handles "
+               "is activated at least twice by a connect() call whose on-release results are false and whose "
+               "terminate() turns true at its 41st poll",
+               "xrace: only one of the two threads runs at any time (hand-over by events), so the virtual clock stays "
+               "meaningful; wall clock guards there only yield INCONCLUSIVE"]
 REQUIRED = ["connect_runs", "trace_checked", "activation_rdwr", "activation_llcp", "activation_card",
             "release_events", "terminate_true_polled", "return_object", "return_true", "return_none", "return_false",
             "sense_runs", "sense_mixed_lists", "sense_found_checked", "sense_nothing_checked", "real_driver_sense",
-            "exchange_checked", "exchange_after_nothing", "exchange_after_new_target"]
+            "exchange_checked", "exchange_after_nothing", "exchange_after_new_target",
+            # monitors that used to be able to die silently
+            "driver_said_unsupported", "terminate_true_idle", "terminate_true_in_activation", "sense_interval_checked",
+            "default_discover_activated", "beep_checked", "env_nodevice", "no_options_left", "ended_by_exception",
+            # activation ground truth (watch_activations) and what it decides
+            "act_events_rdwr", "act_events_llcp", "act_events_card", "activation_default_connect",
+            "return_true_default_callbacks", "terminate_true_in_activation_rdwr", "terminate_true_in_activation_llcp",
+            "terminate_true_in_activation_card", "connect_exchange_targets_checked",
+            # sustained loops
+            "sustained_runs", "connect_ge2_activations", "two_groups_activated", "reactivation_checked",
+            # a peer that keeps talking when the link shall end
+            "stubborn_runs", "stubborn_p2p-initiator_terminated_in_activation",
+            "stubborn_p2p-target_terminated_in_activation",
+            # terminate() shapes
+            "terminate_true_nonbool", "terminate_flapped_back", "terminate_not_given",
+            # sense(): invalid targets next to others, real drivers that find Type B / DEP targets
+            "sense_invalid_in_list", "real_invalid_in_list", "real_found_106B", "real_found_dep", "real_found_212F",
+            # exchange(): other entry points, two threads
+            "exchange_seq_sense_dep", "exchange_seq_sense_options", "exchange_dep_target", "exchange_seq_connect_steps", "exchange_after_connect",
+            "xrace_checked", "xrace_second_nothing", "xrace_second_other", "xrace_first_sense", "xrace_first_listen",
+            "xrace_first_sense_dep", "xrace_first_listen_dep"]
 
 TAG_TYPES = ["t1t", "t2t", "t2t-nxp", "t3t", "t3t-std", "t4a", "t4b", "t4a-dep"]
 RV_CODES = ["T", "F", "N", "0", "1", "E", "S", "L", "O"]
 BRTYS = ["106A", "212A", "424A", "848A", "106B", "212B", "424B", "848B", "106F", "212F", "424F", "848F"]
 BOUND = 3000            # driver calls per connect(); ordinary runs stay far below (see max_driver_calls_per_connect)
 REAL_DRIVERS = ["pn531", "pn532", "pn533", "rcs956", "acr122", "arygonA", "arygonB", "rcs380", "udp"]
+REQUIRED += ["real_" + d for d in REAL_DRIVERS]
 
 
 def plan(tier, seed):
     n = 16
     if tier == "quick":
-        return [{"connect": 420, "sense": 160, "real": 70, "exchange": 60, "systematic": True, "combo": 2,
-                 "timeout": 120}
+        return [{"connect": 420, "sustained": 30, "stubborn": 6, "sense": 160, "real": 70, "exchange": 60, "xrace": 16,
+                 "systematic": True, "combo": 2, "timeout": 120}
                 for _ in range(n)]
-    return [{"connect": 6500, "sense": 2500, "real": 900, "exchange": 800, "systematic": True, "combo": 16,
-             "timeout": 900}
+    return [{"connect": 6500, "sustained": 900, "stubborn": 150, "sense": 2500, "real": 900, "exchange": 800,
+             "xrace": 400, "systematic": True, "combo": 16, "timeout": 900}
             for _ in range(n)]
+
+
+TERM_SHAPES = {"int": (lambda: 1, 0), "str": (lambda: "x", ""), "obj": (object, None), "list": (lambda: [0], [])}
 
 
 def rv_value(code):
@@ -223,7 +289,127 @@ def gen_connect_case(rng):
         term = {"j": rng.choice([0, 1, 1, 2, 2, 3, 4, 5, 6, 8])}                # true from this call index on
         if rng.random() < 0.08:
             term["kbd"] = True
+    r = rng.random()
+    if r < 0.22:
+        term["shape"] = rng.choice(["int", "str", "obj", "list"])      # truthy / falsy values that are not bool
+    elif r < 0.28 and env is not None and "kbd" not in term:
+        # true once and false again, or no terminate argument at all: the world ends the run by itself (at the
+        # latest with a host link failure, documented result False)
+        if r < 0.25 and "j" in term:
+            term["flap"] = True
+        else:
+            term = {"none": True}
+        env.setdefault("fail", {"at": rng.choice([60, 120]), "kind": "ioerror-perm"})
     return {"kind": "connect", "env": env, "opts": opts, "term": term}
+
+
+TRUE_CODES = ["T", "1", "S", "O"]
+FALSE_CODES = ["F", "N", "0", "E", "L"]
+
+
+def gen_sustained_case(rng):
+    """one connect() call that goes through several activations: devices that leave and come back / can be
+    activated several times, on-release results that keep connect() going, late terminate()"""
+    pat = rng.choice(["tag", "tag", "p2p-target", "p2p-initiator", "reader", "tag+p2p-target", "tag+p2p-target",
+                      "tag+p2p-initiator", "tag+reader", "p2p-target+reader", "p2p-initiator+tag",
+                      "p2p-target+p2p-initiator"])
+    visits = rng.randrange(2, 7)
+
+    def release_codes():
+        seq = [rng.choice(FALSE_CODES) for _ in range(rng.randrange(1, 6))]
+        if rng.random() < 0.3:
+            seq.append(rng.choice(TRUE_CODES))          # the k-th on-release ends connect() with its value
+        return seq
+
+    def connect_codes():
+        r = rng.random()
+        if r < 0.25:
+            return None                                 # documented default: true
+        seq = [rng.choice(TRUE_CODES) for _ in range(rng.randrange(1, 5))]
+        if r > 0.8:
+            seq.append(rng.choice(FALSE_CODES))         # the k-th activation is handed to the caller
+        return seq
+    ents, opts = [], {}
+    for kind in pat.split("+"):
+        if kind == "tag":
+            ents.append({"e": "tag", "type": rng.choice(TAG_TYPES), "leave_after": rng.choice([3, 5, 6, 8, 10, 14]),
+                         "away": rng.randrange(1, 4), "visits": visits})
+            d = {"connect": connect_codes(), "release": release_codes(), "iterations": rng.choice([1, 1, 2]),
+                 "interval": rng.choice([0.0, 0.05]), "startup": rng.choice([None, "same"])}
+            if rng.random() < 0.3:
+                d["discover"] = [rng.choice(TRUE_CODES), rng.choice(TRUE_CODES + FALSE_CODES), rng.choice(TRUE_CODES)]
+            if rng.random() < 0.3:
+                d["beep"] = rng.choice([True, False])
+            opts["rdwr"] = d
+        elif kind in ("p2p-target", "p2p-initiator"):
+            e = {"e": kind, "tech": rng.choice(["106A", "212F"] if kind == "p2p-target" else ["106A", "212F", "424F"]),
+                 "end": rng.choice(["disc", "disc", "silent"]), "after": rng.randrange(1, 4), "sessions": visits}
+            if rng.random() < 0.3:
+                e["appear_at"] = rng.randrange(0, 4)
+            ents.append(e)
+            d = opts.setdefault("llcp", {"connect": connect_codes(), "release": release_codes(),
+                                         "startup": rng.choice([None, "llc"]),
+                                         "role": rng.choice([None, "initiator" if kind == "p2p-target" else "target"])})
+            if len([x for x in ents if x["e"].startswith("p2p")]) > 1:
+                d["role"] = None
+        else:
+            tech = rng.choice(["212F", "424F"])
+            ents.append({"e": "reader", "tech": tech, "first": rng.choice(["poll", "rr", "read"]),
+                         "cmds": [rng.choice(["poll", "rr", "read"]) for _ in range(rng.randrange(0, 4))],
+                         "sessions": visits})
+            opts["card"] = {"startup": tech, "connect": connect_codes(), "release": release_codes()}
+            if rng.random() < 0.3:
+                opts["card"]["discover"] = [rng.choice(TRUE_CODES)]
+    term = {"j": rng.choice([8, 12, 20, 30, 40])}
+    if rng.random() < 0.2:
+        term["shape"] = rng.choice(["int", "str", "obj"])
+    return {"kind": "connect", "family": "sustained", "env": {"entities": ents}, "opts": opts, "term": term}
+
+
+def gen_sustained_live_case(rng):
+    """one device that can be activated at least three times and is only handled by one option group, callbacks that
+    keep connect() going, plenty of terminate() polls: it must be activated again after the first activation ended
+    (ASSUMPTIONS) - whatever the first activation left behind"""
+    kind = rng.choice(["tag", "tag", "p2p-target", "p2p-initiator", "reader"])
+    con = rng.choice([None, ["T"], ["1", "S"], ["O", "T", "1"]])
+    rel = [rng.choice(FALSE_CODES) for _ in range(rng.randrange(3, 6))]
+    if kind == "tag":
+        ent = {"e": "tag", "type": rng.choice(TAG_TYPES), "leave_after": rng.choice([8, 10]), "away": rng.randrange(1, 4),
+               "visits": rng.randrange(3, 6)}
+        opts = {"rdwr": {"connect": con, "release": rel, "iterations": 1, "startup": rng.choice([None, "same"])}}
+        if rng.random() < 0.3:
+            opts["rdwr"]["discover"] = ["T"]
+        group = "rdwr"
+    elif kind == "reader":
+        tech = rng.choice(["212F", "424F"])
+        ent = {"e": "reader", "tech": tech, "first": rng.choice(["poll", "rr", "read"]),
+               "cmds": [rng.choice(["poll", "rr", "read"]) for _ in range(rng.randrange(0, 4))], "sessions": rng.randrange(3, 6)}
+        opts = {"card": {"startup": tech, "connect": con, "release": rel}}
+        group = "card"
+    else:
+        ent = {"e": kind, "tech": rng.choice(["106A", "212F"]), "end": rng.choice(["disc", "silent"]),
+               "after": rng.randrange(1, 4), "sessions": rng.randrange(3, 6)}
+        opts = {"llcp": {"connect": con, "release": rel, "startup": rng.choice([None, "llc"]),
+                         "role": rng.choice([None, "initiator" if kind == "p2p-target" else "target"])}}
+        group = "llcp"
+    return {"kind": "connect", "family": "sustained", "expect_reactivation": group, "env": {"entities": [ent]},
+            "opts": opts, "term": {"j": 40}}
+
+
+def gen_stubborn_case(rng, i=None):
+    """terminate() turns true while a peer keeps the NFC-DEP link busy and ignores the request to end it"""
+    if (rng.random() < 0.75) if i is None else (i % 3 != 2):
+        ent = {"e": "p2p-initiator", "tech": rng.choice(["106A", "212F", "424F"]), "acm": rng.random() < 0.2,
+               "end": "stubborn", "period": rng.choice([0.02, 0.05, 0.2]), "mode": rng.choice(["inf", "atn", "mixed"]),
+               "sessions": rng.choice([1, 2])}
+        role = rng.choice(["target", "target", None])
+    else:
+        ent = {"e": "p2p-target", "tech": rng.choice(["106A", "212F"]), "end": "stubborn", "sessions": rng.choice([1, 2])}
+        role = rng.choice(["initiator", None])
+    opts = {"llcp": {"role": role, "connect": rng.choice([None, "T", "1", "S"]),
+                     "release": rng.choice([None, "T", "T", "F", "N", "S"]), "startup": rng.choice([None, "llc"])}}
+    term = {"j": rng.choice([1, 2, 3, 5, 8])} if rng.random() < 0.7 else {"t": rng.choice([0.05, 0.3, 1.0])}
+    return {"kind": "connect", "family": "stubborn", "env": {"entities": [ent]}, "opts": opts, "term": term}
 
 
 def systematic_connect_cases(shard, nshards):
@@ -274,6 +460,28 @@ def systematic_connect_cases(shard, nshards):
                         term = {"j": j} if j >= 0 else {"t": -j}
                         cases.append({"kind": "connect", "env": env, "opts": opts, "term": term})
                     k += 1
+    # terminate() shapes: true values that are not bool, true once and false again, no terminate argument at all
+    # (then the world ends the run: callback results, or at the latest a host link failure -> False)
+    for env in envs:
+        kinds = set(e["e"] for e in env["entities"])
+        for term in ({"j": 2, "shape": "int"}, {"j": 3, "shape": "str"}, {"j": 1, "shape": "obj"}, {"j": 0, "shape": "list"},
+                     {"j": 2, "flap": True}, {"j": 4, "flap": True}, {"none": True}):
+            for con, rel in (("T", "F"), ("T", None), ("F", "T"), (None, "S")):
+                if "tag" in kinds or not kinds:
+                    opts = {"rdwr": {"connect": con, "release": rel, "iterations": 1}}
+                elif "p2p-target" in kinds:
+                    opts = {"llcp": {"connect": con, "release": rel, "role": "initiator"}}
+                elif "p2p-initiator" in kinds:
+                    opts = {"llcp": {"connect": con, "release": rel, "role": "target"}}
+                else:
+                    st = "106A" if env["entities"][0]["tech"] == "106A" else "212F"
+                    opts = {"card": {"connect": con, "release": rel, "startup": st}}
+                if k % nshards == shard:
+                    e2 = dict(env)
+                    if "shape" not in term:
+                        e2["fail"] = {"at": 80, "kind": "ioerror-perm"}
+                    cases.append({"kind": "connect", "env": e2, "opts": opts, "term": dict(term)})
+                k += 1
     return cases
 
 
@@ -452,7 +660,7 @@ def gen_target_spec(rng, invalid_ok=True):
 def gen_sense_case(rng, driver="world"):
     n = rng.choice([1, 2, 2, 3, 3, 4, 5, 6])
     case = {"kind": "sense", "driver": driver,
-            "targets": [gen_target_spec(rng, invalid_ok=(driver == "world")) for _ in range(n)]}
+            "targets": [gen_target_spec(rng) for _ in range(n)]}
     if rng.random() < 0.6:
         case["iterations"] = rng.choice([0, 1, 2, 3])
     if rng.random() < 0.5:
@@ -465,7 +673,17 @@ def gen_sense_case(rng, driver="world"):
                                              "106B", "424F"], rng.randrange(1, 7))
         case["env"] = env
     else:
-        case["found"] = rng.choice([None, None, "212F", "424F", "106A"])
+        case["found"] = rng.choice([None, None, None, "212F", "424F", "106A", "106B", "106B", "dep", "dep"])
+        if case["found"] == "dep" and rng.random() < 0.7:
+            # make sure the list asks for an active mode target somewhere
+            t = rng.choice(case["targets"])
+            t.pop("sel_req", None), t.pop("sensf_req", None), t.pop("invalid", None)
+            t["brty"], t["atr_req"] = rng.choice(["106A", "212F", "424F"]), rng.choice([16, 20, 64])
+        elif case["found"] == "106B" and rng.random() < 0.7:
+            t = rng.choice(case["targets"])
+            for k in ("sel_req", "sensf_req", "invalid", "atr_req"):
+                t.pop(k, None)
+            t["brty"] = "106B"
     return case
 
 
@@ -476,16 +694,37 @@ def gen_exchange_case(rng):
                      "sessions": 10})
     if rng.random() < 0.5:
         ents.append({"e": "tag", "type": "t4b"})
+    if rng.random() < 0.5:
+        ents.append({"e": "p2p-target", "tech": rng.choice(["acm", "acm", "106A"]), "end": "never", "sessions": 10})
+    if rng.random() < 0.5:
+        ents.append({"e": "p2p-initiator", "tech": rng.choice(["106A", "424F"]), "end": "never", "sessions": 10})
     rng.shuffle(ents)
     env = {"entities": ents, "unsupported": ["848A", "212A"]}
     steps = []
     for _ in range(rng.randrange(4, 12)):
         r = rng.random()
-        if r < 0.45:
-            steps.append({"op": "sense", "targets": [rng.choice(["106A", "212F", "106B", "424F", "848A", "212A", "106X"])
-                                                     for _ in range(rng.choice([1, 1, 2, 3]))]})
-        elif r < 0.6:
-            steps.append({"op": "listen", "brty": rng.choice(["212F", "106A", "424F", "106B"])})
+        if r < 0.40:
+            ts = [rng.choice(["106A", "212F", "106B", "424F", "848A", "212A", "106X"]) for _ in range(rng.choice([1, 1, 2, 3]))]
+            if rng.random() < 0.3:      # an active communication mode target (found by sense_dep)
+                ts.insert(rng.randrange(len(ts) + 1), {"brty": rng.choice(["106A", "212F", "424F"]), "atr_req": 16})
+            st = {"op": "sense", "targets": ts}
+            if rng.random() < 0.35:     # the keyword options of sense()
+                st["iterations"] = rng.choice([1, 2, 3])
+                if rng.random() < 0.7:
+                    st["interval"] = rng.choice([0.0, 0.05, 0.1])
+            steps.append(st)
+        elif r < 0.55:
+            st = {"op": "listen", "brty": rng.choice(["212F", "106A", "424F", "106B"])}
+            if rng.random() < 0.4:      # listen_dep
+                st["dep"] = True
+            steps.append(st)
+        elif r < 0.65:
+            # a short connect() run between discovery and exchange / exchange() after connect() returned
+            st = {"op": "connect", "opt": rng.choice(["rdwr", "rdwr", "rdwr", "llcp-i", "llcp-t", "card"]),
+                  "connect": rng.choice(["T", "F", "F"]), "j": rng.choice([1, 2, 3])}
+            if st["opt"] == "rdwr":     # with or without something to find
+                st["targets"] = rng.choice([["106A", "212F"], ["106A"], ["212F", "106B"], ["106B"], ["424F"], ["106B", "424F"]])
+            steps.append(st)
         else:
             steps.append({"op": "exchange", "data": rng.choice(["3000", "0600ffff0100", "3004"])})
     steps.append({"op": "exchange", "data": "3000"})
@@ -495,6 +734,101 @@ def gen_exchange_case(rng):
 # =================================================================================================
 # running a connect() case
 # =================================================================================================
+_WORLD = []
+
+
+def world_mod():
+    """vf.sim.world with three entity classes extended (registered in world.ENTITY_CLASSES of this worker process;
+    the specs stay JSON-able, absent keys keep the behaviour of the base classes):
+
+      tag            + "away": k, "visits": v   a tag that left (leave_after) is back after k further discoveries,
+                                                 v visits in all (each visit leaves after leave_after commands again)
+      p2p-initiator  + "end": "stubborn", "period": s, "mode": "inf"|"atn"|"mixed"
+                         an NFC-DEP Initiator that never releases: whatever the local Target answers (SYMM, the
+                         LLCP DISC of a link termination ...) is taken as the response and the next DEP_REQ follows
+                         (information PDU carrying SYMM with the correct PNI, or an attention request first) every
+                         `period` virtual seconds; never sends DSL_REQ / RLS_REQ, never falls silent
+      p2p-target     + "end": "stubborn"         an NFC-DEP Target whose LLCP peer answers DISC with SYMM and that
+                                                 does not answer DSL_REQ / RLS_REQ
+    """
+    if _WORLD:
+        return _WORLD[0]
+    from vf.sim import world
+
+    class CyclingTag(world.Tag):
+        def __init__(self, spec, index):
+            world.Tag.__init__(self, spec, index)
+            self.away = spec.get("away")
+            self.visits = spec.get("visits", 1)
+            self.left_at = None
+
+        def visible(self, dev):
+            if self.gone and self.away is not None and self.visits > 1:
+                if self.left_at is None:
+                    self.left_at = dev.discoveries
+                if dev.discoveries >= self.left_at + self.away:
+                    self.gone, self.left_at, self.answered = False, None, 0
+                    self.visits -= 1
+                    self.power_cycle()
+            return world.Tag.visible(self, dev)
+
+    class Initiator(world.P2PInitiator):
+        def exchange(self, dev, target, data, timeout):
+            if self.end != "stubborn":
+                return world.P2PInitiator.exchange(self, dev, target, data, timeout)
+            f0 = target.brty == "106A"
+            if not self.active:
+                return "off"
+            period = self.spec.get("period", 0.02)
+            if timeout and period > timeout:
+                return None                     # the next request comes later than the local side listens
+            dev.clock.advance(period)
+            atn = world.dep_frame(b"\xD4\x06\x80", f0)
+            if data is None:
+                return atn
+            pdu = world.dep_unframe(data, f0)
+            if pdu is None or pdu[0] != 0xD5:
+                return None
+            if pdu[1] in (0x09, 0x0B):
+                self._end_session()
+                return "off"
+            if pdu[1] != 0x07 or len(pdu) < 3:
+                return None
+            typ, pni, (flags, hdr), inf = world.dep_split(pdu)
+            if typ == 0x8:
+                return self.last
+            if typ == 0x0 and pni == self.pni:
+                self.n_inf += 1
+                self.pni = (self.pni + 1) & 3
+                self.last = world.dep_frame(b"\xD4\x06" + bytes([self.pni]) + world.SYMM, f0)
+                mode = self.spec.get("mode", "inf")
+                if mode == "atn" or (mode == "mixed" and self.n_inf % 3 == 0):
+                    return atn                  # "did you get it?" first, the information PDU after the answer
+                return self.last
+            if typ == 0x1 and pni == self.pni:
+                self.pni = (self.pni + 1) & 3
+                self.last = world.dep_frame(b"\xD4\x06" + bytes([0x40 | self.pni]), f0)
+                return self.last
+            return None
+
+    class Target(world.P2PTarget):
+        def exchange(self, dev, target, data, timeout):
+            if self.end == "stubborn":
+                pdu = world.dep_unframe(data, target.brty == "106A")
+                if pdu is not None and pdu[0] == 0xD4 and pdu[1] in (0x08, 0x0A):
+                    return None
+            return world.P2PTarget.exchange(self, dev, target, data, timeout)
+
+        def next_llcp(self, inf):
+            if self.end == "stubborn":
+                return world.SYMM
+            return world.P2PTarget.next_llcp(self, inf)
+
+    world.ENTITY_CLASSES.update({"tag": CyclingTag, "p2p-initiator": Initiator, "p2p-target": Target})
+    _WORLD.append(world)
+    return world
+
+
 class Trace(object):
     def __init__(self):
         self.ev = []            # dicts, in order of occurrence
@@ -504,9 +838,11 @@ class Trace(object):
         self.llc = None
         self.card_target = None
         self.dev = None
+        self.clock = None
 
     def add(self, **kw):
         kw["i"] = len(self.ev)
+        kw["t"] = self.clock.now if self.clock is not None else 0.0
         self.ev.append(kw)
         return kw
 
@@ -556,8 +892,13 @@ def make_options(case, tr, clock):
     options = {}
 
     def cb(opt, name, code):
+        n = [0]
+
         def f(arg):
-            val = rv_value(code)
+            # a list of codes: the result of the 1st, 2nd, ... call (the last one repeats)
+            c = code[min(n[0], len(code) - 1)] if isinstance(code, list) else code
+            n[0] += 1
+            val = rv_value(c)
             tr.add(k="cb", opt=opt, name=name, arg=arg, ret=val)
             return val
         return f
@@ -670,20 +1011,58 @@ def make_options(case, tr, clock):
         if term.get("kbd") and idx == term["j"]:
             tr.add(k="term", idx=idx, val="kbd")
             raise KeyboardInterrupt()
-        val = (clock.time() - tr.t0 >= term["t"]) if "t" in term else (idx >= term["j"])
+        if "t" in term:
+            val = clock.time() - tr.t0 >= term["t"]
+        elif term.get("flap"):
+            val = idx == term["j"]              # true once, false again afterwards
+        else:
+            val = idx >= term["j"]
         tr.add(k="term", idx=idx, val=val)
-        return val
-    options["terminate"] = terminate
+        shape = term.get("shape")               # "a callback function ... returns a true value": any truth value
+        if shape is None:
+            return val
+        return TERM_SHAPES[shape][0]() if val else TERM_SHAPES[shape][1]
+    if not term.get("none"):                    # no terminate argument at all: the world ends the run by itself
+        options["terminate"] = terminate
     return options
+
+
+def watch_activations(tr):
+    """ground truth that does not depend on the user callbacks: the three activation functions connect() relies on
+    (nfc.tag.activate, LogicalLinkController.activate, nfc.tag.emulate) report their results into the trace.
+    Returns the function that removes the wrappers again."""
+    import nfc.tag
+    import nfc.llcp.llc
+    LLC = nfc.llcp.llc.LogicalLinkController
+    orig = (nfc.tag.activate, nfc.tag.emulate, LLC.activate)
+
+    def wrap(opt, f, ok, obj):
+        def g(*a, **kw):
+            try:
+                r = f(*a, **kw)
+            except BaseException as x:
+                tr.add(k="act", opt=opt, ok=False, obj=None, exc=x)
+                raise
+            tr.add(k="act", opt=opt, ok=ok(r), obj=obj(a, r), exc=None)
+            return r
+        return g
+    nfc.tag.activate = wrap("rdwr", orig[0], lambda r: isinstance(r, nfc.tag.Tag), lambda a, r: r)
+    nfc.tag.emulate = wrap("card", orig[1], lambda r: isinstance(r, nfc.tag.TagEmulation), lambda a, r: r)
+    LLC.activate = wrap("llcp", orig[2], bool, lambda a, r: a[0])
+
+    def restore():
+        nfc.tag.activate, nfc.tag.emulate, LLC.activate = orig
+    return restore
 
 
 def run_connect(case):
     import nfc.clf
     from vf.core.vclock import VClock
-    from vf.sim import world
+    world = world_mod()
     clock = VClock()
     world.patch_time(clock)
     tr = Trace()
+    tr.clock = clock
     clf = nfc.clf.ContactlessFrontend()
     if case["env"] is not None:
         dev = world.WorldDevice(case["env"], clock, sink=lambda c: tr.add(k="drv", call=c), bound=BOUND)
@@ -691,11 +1070,15 @@ def run_connect(case):
         tr.dev = dev
     instrument(clf, tr)
     options = make_options(case, tr, clock)
+    restore = watch_activations(tr)
     try:
         tr.ret = clf.connect(**options)
     except BaseException as e:          # noqa (SystemExit / Bound / KeyboardInterrupt are verdict material)
         tr.exc = e
+    finally:
+        restore()
     tr.n_at_return = len(tr.ev)
+    tr.t_end = clock.now
     return tr
 
 
@@ -732,6 +1115,10 @@ def type_name(o):
     return type(o).__name__
 
 
+PROMPT_VSEC = 3.0       # see "promptness" in check_connect
+P2P_KINDS = frozenset(("p2p-target", "p2p-initiator", "multi"))
+
+
 def check_connect(case, tr, R):
     """returns list of (signature, text)"""
     import nfc.clf
@@ -746,6 +1133,11 @@ def check_connect(case, tr, R):
     cbs = [e for e in ev if e["k"] == "cb"]
     drv = [e for e in ev if e["k"] == "drv"]
     terms = [e for e in ev if e["k"] == "term"]
+    # A callback that is not supplied keeps its documented default and is not observable: a missing on-discover
+    # lets the activation follow directly, a missing on-connect (default: true) opens the activation as soon as
+    # the activation function (watch_activations) reported success, a missing on-release (default: true) ends
+    # connect() with True.
+    has = {o: {n: opts[o].get(n) is not None for n in ("discover", "connect", "release")} for o in left}
 
     # (a) no device -> IOError(ENODEV)
     if case["env"] is None:
@@ -760,8 +1152,9 @@ def check_connect(case, tr, R):
         overdue = 0
         if "t" in case["term"]:
             overdue = len([e for e in drv if e["call"].t - tr.t0 >= case["term"]["t"]])
-        if any(e["val"] is True for e in terms) or overdue > BOUND // 3:
-            what = "open-activation" if _open_at_end(cbs) else "idle"
+        stays_true = bool(terms) and terms[-1]["val"] is True
+        if stays_true or overdue > BOUND // 3:
+            what = "open-activation" if _open_at_end(ev, has) else "idle"
             V.append(("prompt/no-return-after-terminate/" + what,
                       "connect() did not return although terminate() had returned true (%s)" % tr.exc))
         else:
@@ -780,7 +1173,7 @@ def check_connect(case, tr, R):
     # ---- on-startup: once per option given, before anything else ------------------------------------
     first_other = None
     for e in ev:
-        if e["k"] in ("drv", "fe") or (e["k"] == "cb" and e["name"] != "startup"):
+        if e["k"] in ("drv", "fe", "act") or (e["k"] == "cb" and e["name"] != "startup"):
             first_other = e["i"]
             break
     for o in given:
@@ -825,31 +1218,109 @@ def check_connect(case, tr, R):
         R.count("no_options_left")
         if tr.ret is not None:
             V.append(("return/no-options-left", "no option left after on-startup but connect() returned %r" % (tr.ret,)))
-        if drv or fes:
+        if drv or fes or any(e["k"] == "act" for e in ev):
             V.append(("startup/discovery-without-options", "driver used although no option was left"))
         R.seen("returns", "no-options->%s" % type_name(tr.ret))
         R.count("return_none")
         return V
 
+    # ---- exceptions that end connect() -----------------------------------------------------------------
+    # "It returns False when terminated by any of the following exceptions: KeyboardInterrupt, IOError,
+    #  UnsupportedTargetError."
+    last_fe_end = None
+    for e in reversed(ev):
+        if e["k"] == "fe_end":
+            last_fe_end = e
+            break
+        if e["k"] in ("cb", "term"):
+            break
+    unsupported_end = last_fe_end is not None and isinstance(last_fe_end.get("exc"), nfc.clf.UnsupportedTargetError)
+    by_exception = bool(injected) or kbd_term or unsupported_end
+
     # ---- activation automaton ------------------------------------------------------------------------
-    # A callback that is not supplied keeps its documented default and is not observable: a missing on-discover
-    # lets on-connect follow directly, a missing on-connect (default: true) lets on-release follow directly.
-    has = {o: {n: opts[o].get(n) is not None for n in ("discover", "connect", "release")} for o in left}
+    # events: discovery (frontend sense/listen of a group), on-discover, result of the activation function ("act":
+    # ground truth, independent of the user callbacks), on-connect, on-release, terminate() polls
     state = "idle"          # idle | discovered | open | final
     cur = None              # (opt, object) of the open activation
     disc_opt = None
+    pend = None             # (opt, object): a successful activation that awaits its (user supplied) on-connect
+    want_act = None         # opt whose user supplied on-discover returned true: the activation function comes next
+    ents = []               # kinds of the world entities that answered a discovery since the last activation attempt
     n_true = {"rdwr": 0, "llcp": 0, "card": 0}
     n_rel = {"rdwr": 0, "llcp": 0, "card": 0}
+    n_act = {"rdwr": 0, "llcp": 0, "card": 0}
+    act_seq = []
     final = None            # ("object", obj) | ("release", value)
-    open_at = {}            # event index -> activation open at that moment
+    open_at = {}            # event index -> option whose activation is open at that moment (None: idle)
     last_found = {"rdwr": None, "card": None}
-    for e in ev:
-        open_at[e["i"]] = state == "open"
-        if e["k"] == "fe_end" and e["op"] in ("sense", "listen") and e.get("exc") is None:
-            c = ev[e["ref"]].get("cls")
-            if c in ("rdwr", "card") and e["ret"] is not None:
-                last_found[c] = e["ret"]
-        if e["k"] != "cb" or e["name"] == "startup" or e["opt"] not in left:
+    for e in ev + [{"k": "end", "i": len(ev)}]:
+        k = e["k"]
+        open_at[e["i"]] = cur[0] if state == "open" else None
+        if k == "drv":
+            if e["call"].entity is not None:
+                ents.append(e["call"].entity.spec["e"])
+            continue
+        if k == "fe_end":
+            if e["op"] in ("sense", "listen") and e.get("exc") is None:
+                c = ev[e["ref"]].get("cls")
+                if c in ("rdwr", "card") and e["ret"] is not None:
+                    last_found[c] = e["ret"]
+            continue
+        if k == "fe" and e.get("cls") not in ("rdwr", "card", "dep-listen"):
+            continue            # data exchange, the searches inside an activation function
+        is_cb = k == "cb"
+        if is_cb and (e["name"] == "startup" or e["opt"] not in left):
+            continue
+        # what a successful activation / a true on-discover makes come next
+        if pend is not None and not (is_cb and e["opt"] == pend[0] and e["name"] == "connect"):
+            if not (k == "end" and by_exception):
+                V.append(("order/connect-skipped/" + pend[0], "the activation function of %s succeeded but on-connect "
+                          "was not called for it" % pend[0]))
+            pend = None
+        if want_act is not None and not (k == "act" and e["opt"] == want_act):
+            if not (k == "end" and by_exception):
+                V.append(("order/discover-true-not-activated/" + want_act, "on-discover of %s returned true but the "
+                          "target was not activated" % want_act))
+            want_act = None
+        if k == "fe" and state == "open" and not any(v[0].startswith("order/discovery-while-open") for v in V):
+            # the activation is over for connect() although on-release was not called for it (with the default
+            # on-release, true, connect() had to return)
+            V.append(("order/discovery-while-open/" + cur[0], "connect() went on to the next discovery while the %s "
+                      "activation awaited on-release" % cur[0]))
+        if k in ("end", "term", "fe"):
+            continue
+        if k == "act":
+            o = e["opt"]
+            want_act = None
+            if o not in left:
+                V.append(("startup/removed-option-used/" + o, "activation for option %s which on-startup had removed" % o))
+            elif state == "final":
+                V.append(("order/callback-after-final/%s-activation" % o,
+                          "activation after the callback result that ends connect()"))
+            else:
+                if state == "open":
+                    V.append(("order/activation-while-open/" + o, "activation while an activation awaits on-release"))
+                if o in ("rdwr", "card") and has[o]["discover"] and not (state == "discovered" and disc_opt == o):
+                    V.append(("order/activation-without-discover/" + o, "activation without a true on-discover before"))
+                if e["ok"]:
+                    n_act[o] += 1
+                    act_seq.append(o)
+                    kinds = set(ents)
+                    if not (kinds & P2P_KINDS if o == "llcp" else ("reader" in kinds if o == "card" else kinds)):
+                        V.append(("activation/no-counterpart/" + o, "%s activation reported although no %s answered a "
+                                  "discovery since the previous activation"
+                                  % (o, {"llcp": "NFC-DEP peer", "card": "reader", "rdwr": "target"}[o])))
+                    if has[o]["connect"]:
+                        pend = (o, e["obj"])
+                    else:
+                        # default on-connect: "lambda: True" -> the activation is open
+                        n_true[o] += 1
+                        R.count("activation_" + o)
+                        R.count("activation_default_connect")
+                        state, cur = "open", (o, e["obj"])
+                elif state == "discovered":
+                    state, disc_opt = "idle", None
+            ents = []
             continue
         o, name = e["opt"], e["name"]
         if state == "final":
@@ -866,6 +1337,8 @@ def check_connect(case, tr, R):
                 V.append(("order/discover-arg/" + o, "on-discover got a target that the last discovery did not return"))
             R.seen("transitions", "%s:%s->discover(%s)" % (o, state, bool(e["ret"])))
             state, disc_opt = ("discovered", o) if e["ret"] else ("idle", None)
+            if e["ret"]:
+                want_act = o
         elif name == "connect":
             if state == "open":
                 V.append(("order/connect-while-open", "on-connect while an activation awaits on-release"))
@@ -874,6 +1347,12 @@ def check_connect(case, tr, R):
             want = {"rdwr": nfc.tag.Tag, "llcp": nfc.llcp.llc.LogicalLinkController, "card": nfc.tag.TagEmulation}[o]
             if not isinstance(e["arg"], want) or (o == "llcp" and tr.llc is not None and e["arg"] is not tr.llc):
                 V.append(("order/connect-arg/" + o, "on-connect got %r" % (e["arg"],)))
+            if pend is None or pend[0] != o:
+                V.append(("order/connect-without-activation/" + o, "on-connect although no activation of %s had just "
+                          "succeeded" % o))
+            elif e["arg"] is not pend[1]:
+                V.append(("order/connect-arg/" + o, "on-connect got another object than the activation produced"))
+            pend = None
             R.seen("transitions", "%s:%s->connect(%s)" % (o, state, bool(e["ret"])))
             R.count("activation_" + o)
             if e["ret"]:
@@ -887,10 +1366,6 @@ def check_connect(case, tr, R):
             if state == "open" and cur[0] == o:
                 if e["arg"] is not cur[1]:
                     V.append(("order/release-arg/" + o, "on-release got another object than on-connect"))
-            elif state != "open" and not has[o]["connect"] and \
-                    (not has[o].get("discover") or (state == "discovered" and disc_opt == o)):
-                n_true[o] += 1              # the default on-connect returned true (not observable)
-                R.count("activation_" + o)
             else:
                 V.append(("count/release-without-connect-true/" + o,
                           "on-release without a preceding true on-connect result"))
@@ -903,8 +1378,6 @@ def check_connect(case, tr, R):
     ended_open = state == "open"
     # default on-release (lambda: True) is not recorded: an open activation at the end with a default on-release
     default_release_open = ended_open and not has[cur[0]]["release"]
-    # neither on-connect nor on-release supplied for some option: a complete activation leaves no callback trace
-    invisible = [o for o in left if not has[o]["connect"] and not has[o]["release"]]
 
     for o in left:
         if has[o]["release"]:
@@ -913,25 +1386,24 @@ def check_connect(case, tr, R):
                 V.append(("count/release!=connect-true/" + o,
                           "%d true on-connect results, %d on-release calls" % (n_true[o], n_rel[o])))
     R.count("trace_checked")
-
-    # ---- exceptions that end connect() -----------------------------------------------------------------
-    # "It returns False when terminated by any of the following exceptions: KeyboardInterrupt, IOError,
-    #  UnsupportedTargetError."
-    last_fe_end = None
-    for e in reversed(ev):
-        if e["k"] == "fe_end":
-            last_fe_end = e
-            break
-        if e["k"] in ("cb", "term"):
-            break
-    unsupported_end = last_fe_end is not None and isinstance(last_fe_end.get("exc"), nfc.clf.UnsupportedTargetError)
-    by_exception = bool(injected) or kbd_term or unsupported_end
+    # sustained loops: what one connect() call went through
+    total_act = sum(n_act.values())
+    R.max("activations_per_connect", total_act)
+    for o in left:
+        if n_act[o]:
+            R.count("act_events_" + o, n_act[o])
+    if total_act >= 2:
+        R.count("connect_ge2_activations")
+        R.seen("activation_sequences", ">".join(act_seq[:6]))
+    if len(set(act_seq)) >= 2:
+        R.count("two_groups_activated")
 
     if ended_open and not default_release_open and not by_exception:
         V.append(("count/release-missing/" + cur[0], "connect() returned while an activation awaited on-release"))
 
     # ---- return value table ------------------------------------------------------------------------------
     ret = tr.ret
+    last_term_true = bool(terms) and terms[-1]["val"] is True
     if by_exception:
         R.count("ended_by_exception")
         if ended_open:
@@ -958,24 +1430,21 @@ def check_connect(case, tr, R):
     elif default_release_open:
         # "Any true return value instructs connect() to wait until the tag is no longer present and then return
         #  True" (default on-release; for llcp/card the documented example returns True from on-release)
-        if ret is not True and not (ret is None and terms and terms[-1]["val"] is True):
+        if ret is not True and not (ret is None and last_term_true):
             V.append(("return/connect-true-not-True", "on-connect returned true, default on-release, connect() "
                       "returned %r" % (ret,)))
         R.seen("returns", "connect-true+default-release->%r" % (ret,))
         R.count("return_true")
-    elif invisible and ret is True:
-        # default on-connect (true) and default on-release (true): "... and then return True"
-        R.seen("returns", "default-callbacks->True")
-        R.count("return_true")
-        R.count("return_true_unobserved_activation")
+        if not has[cur[0]]["connect"]:
+            R.count("return_true_default_callbacks")
     else:
         # "returns None ... when the 'terminate' function returned a true value"
         if ret is not None:
             V.append(("return/not-None-without-result", "no callback result asks for a value but connect() "
                       "returned %r" % (ret,)))
-        elif not (terms and terms[-1]["val"] is True):
-            V.append(("return/None-without-terminate", "connect() returned None although terminate() never "
-                      "returned true and options were left"))
+        elif not last_term_true:
+            V.append(("return/None-without-terminate", "connect() returned None although terminate() %s and options "
+                      "were left" % ("was not given" if case["term"].get("none") else "did not return true last")))
         R.seen("returns", "terminate->%r" % (ret,))
         R.count("return_none")
 
@@ -998,24 +1467,56 @@ def check_connect(case, tr, R):
             V.append(("order/exchange-after-release/" + rel["opt"], "data exchange after on-release of the same activation"))
             break
 
+    # ---- "exchange() never uses a target from an earlier sense or listen", inside connect() ------------------
+    xs = [e["call"] for e in drv if e["call"].op in ("send_cmd_recv_rsp", "send_rsp_recv_cmd")]
+    if xs:
+        R.count("connect_exchange_targets_checked")
+        if any(c.fresh is False for c in xs):
+            V.append(("exchange/stale-target/inside-connect", "a data exchange inside connect() handed the driver a "
+                      "target that the latest discovery did not return"))
+
     # ---- promptness ---------------------------------------------------------------------------------------
     first_true = next((e for e in terms if e["val"] is True), None)
+    shape = case["term"].get("shape")
     if first_true is not None:
         R.count("terminate_true_polled")
+        if shape:
+            R.count("terminate_true_nonbool")
+            R.seen("terminate_shapes", shape)
         p = first_true["i"]
-        after = [e for e in fes if e["i"] > p]
-        later_cb = [e for e in cbs if e["i"] > p]
-        if any(not has[o]["connect"] for o in left):
-            R.count("terminate_true_activation_state_unknown")     # a default on-connect hides whether one is open
-        elif not open_at[p]:
+        # a terminate() that flaps (true once, false again): what the true result governs ends at the next poll
+        q = next((e["i"] for e in terms if e["i"] > p and e["val"] is False), len(ev))
+        if q < len(ev):
+            R.count("terminate_flapped_back")
+        after = [e for e in fes if p < e["i"] < q]
+        if open_at[p] is None:
             R.count("terminate_true_idle")
             # terminate() was polled true while nothing was active: "The calling thread is blocked until ... a
             # callback function supplied as the keyword argument terminate returns a true value" -> returns None now
-            if after or later_cb:
+            rest = [e for e in fes if e["i"] > p]
+            later_cb = [e for e in cbs if e["i"] > p]
+            if rest or later_cb or any(e["k"] == "act" and e["i"] > p for e in ev):
                 V.append(("prompt/discovery-after-idle-terminate", "terminate() returned true with no activation "
-                          "open, yet %d more discovery calls / %d callbacks followed" % (len(after), len(later_cb))))
+                          "open, yet %d more discovery calls / %d callbacks followed" % (len(rest), len(later_cb))))
         else:
+            o = open_at[p]
             R.count("terminate_true_in_activation")
+            R.count("terminate_true_in_activation_" + o)
+            # The open activation ends: on-release, or (default on-release) the next thing connect() does.  nfcpy
+            # documents no figure; its NFC-DEP Target waits at most 1 s for the Initiator to release, its Initiator
+            # 0.5 s for the answer to DISC and 0.1 s for DSL_RES: PROMPT_VSEC virtual seconds are generous.
+            end = next((e for e in ev if e["i"] > p and
+                        ((e["k"] == "cb" and e["name"] == "release") or e["k"] == "act" or
+                         (e["k"] == "fe" and e.get("cls") in ("rdwr", "card", "dep-listen")))), None)
+            t_end = end["t"] if end is not None else tr.t_end
+            upto = end["i"] if end is not None else len(ev)
+            frames = len([e for e in ev if p < e["i"] < upto and e["k"] == "fe" and e["op"] == "exchange"])
+            R.max("activation_end_ms_after_terminate", int(1000 * (t_end - first_true["t"])))
+            R.max("frames_after_terminate", frames)
+            if t_end - first_true["t"] > PROMPT_VSEC:
+                V.append(("prompt/activation-end-latency/" + o, "terminate() returned true inside an open %s "
+                          "activation, which then took %.1f virtual seconds (%d frames) to end"
+                          % (o, t_end - first_true["t"], frames)))
         # (c) at most one residual cycle: <= one further sense/listen per enabled option
         per = {}
         for e in after:
@@ -1026,6 +1527,8 @@ def check_connect(case, tr, R):
             V.append(("prompt/residual>1cycle", "after terminate() returned true: %r further discovery calls" % per))
         polls_after = len([e for e in terms if e["i"] > p])
         R.max("terminate_polls_after_true", polls_after)
+    elif case["term"].get("none"):
+        R.count("terminate_not_given")
 
     # ---- default on-discover ---------------------------------------------------------------------------------
     # "The default function depends on the 'llcp' option, if present then the function returns True only if the
@@ -1034,8 +1537,7 @@ def check_connect(case, tr, R):
     # "[llcp on-startup] Any other value removes the 'llcp' option." -> an llcp option that its own on-startup
     # removed is not present any more
     d = opts.get("rdwr")
-    if d is not None and "rdwr" in left and d.get("discover") is None and "llcp" not in left \
-            and d.get("connect") is not None and not by_exception:
+    if d is not None and "rdwr" in left and d.get("discover") is None and "llcp" not in left and not by_exception:
         llcp_state = "" if opts.get("llcp") is None else "/llcp-removed-at-startup"
         found_by = {}
         for e in drv:
@@ -1044,7 +1546,8 @@ def check_connect(case, tr, R):
         pending = None
         for e in ev + [{"k": "end", "i": len(ev)}]:
             if pending is not None:
-                activated = (e["k"] == "cb" and e["opt"] == "rdwr" and e["name"] == "connect") or \
+                activated = (e["k"] == "act" and e["opt"] == "rdwr") or \
+                    (e["k"] == "cb" and e["opt"] == "rdwr" and e["name"] == "connect") or \
                     (e["k"] == "fe" and (e["op"] == "exchange" or e.get("cls") == "other-sense"))
                 passed = e["k"] in ("term", "end") or (e["k"] == "fe" and e.get("cls") in ("rdwr", "card", "dep-listen"))
                 if activated:
@@ -1069,13 +1572,11 @@ def check_connect(case, tr, R):
         #  function returns a true value. Defaults to True."
         on = len([e for e in drv if e["call"].op == "led_on"])
         beep = True if d.get("beep") is None else bool(d["beep"])
-        rd_true = n_true["rdwr"] if d.get("connect") is not None else None
-        if rd_true is not None:
-            want = rd_true if beep else 0
-            if on != want:
-                V.append(("beep/%s" % ("missing" if on < want else "unwanted"),
-                          "%d beeps for %d true on-connect results, beep-on-connect=%r" % (on, rd_true, d.get("beep"))))
-            R.count("beep_checked")
+        want = n_true["rdwr"] if beep else 0
+        if on != want:
+            V.append(("beep/%s" % ("missing" if on < want else "unwanted"),
+                      "%d beeps for %d true on-connect results, beep-on-connect=%r" % (on, n_true["rdwr"], d.get("beep"))))
+        R.count("beep_checked")
     return V
 
 
@@ -1165,7 +1666,9 @@ def check_model(case, tr, R):
         R.count("combo_ended_by_exception")         # judged by the trace monitors
         return V
     R.count("combo_judged")
-    acts = [e for e in tr.ev if e["k"] == "cb" and e["name"] in ("connect", "release") and e["opt"] in left]
+    # activations: the activation function reported success (ground truth), or on-connect / on-release was called
+    acts = [e for e in tr.ev if e["k"] in ("cb", "act") and e["opt"] in left and
+            ((e["k"] == "cb" and e["name"] in ("connect", "release")) or (e["k"] == "act" and e["ok"]))]
     groups = []
     for e in acts:
         if e["opt"] not in groups:
@@ -1198,8 +1701,7 @@ def check_model(case, tr, R):
     if len(H) > 1:
         R.count("model_multi_handler")
     # (2) the device is in the field from the start: one of its handlers activates it
-    invisible = [h for h in H if opts[h].get("connect") is None and opts[h].get("release") is None]
-    activated = any(g in H for g in groups) or (tr.ret is True and bool(invisible))
+    activated = any(g in H for g in groups)
     R.count("model_live_checked")
     if not activated:
         what = ",".join("%s:%s" % (h, ctx.get(h, "-")) for h in H)
@@ -1234,12 +1736,14 @@ def check_model(case, tr, R):
     return V
 
 
-def _open_at_end(cbs):
+def _open_at_end(ev, has):
     st = False
-    for e in cbs:
-        if e["name"] == "connect":
+    for e in ev:
+        if e["k"] == "act":
+            st = bool(e["ok"]) and e["opt"] in has and not has[e["opt"]]["connect"]
+        elif e["k"] == "cb" and e["name"] == "connect":
             st = bool(e["ret"])
-        elif e["name"] == "release":
+        elif e["k"] == "cb" and e["name"] == "release":
             st = False
     return st
 
@@ -1257,6 +1761,20 @@ def do_connect(case, R, report=True):
     V = check_connect(case, tr, R)
     if case.get("model"):
         V = V + check_model(case, tr, R)
+    if case.get("expect_reactivation") and tr.exc is None and tr.ret is None:
+        g = case["expect_reactivation"]
+        n = len([e for e in tr.ev if e["k"] == "act" and e["ok"] and e["opt"] == g])
+        R.count("reactivation_checked")
+        if n < 2:
+            V.append(("sustained/not-reactivated/" + g, "a device that can be activated several times was activated %d "
+                      "time(s) by %s in a connect() call with 40 terminate() polls and on-release results that keep "
+                      "connect() going" % (n, g)))
+    if case.get("family"):
+        R.count(case["family"] + "_runs")
+        if case["family"] == "stubborn" and tr.exc is None and any(e["k"] == "term" and e["val"] is True for e in tr.ev):
+            p = next(e for e in tr.ev if e["k"] == "term" and e["val"] is True)
+            if _open_at_end(tr.ev[:p["i"]], {"llcp": {"connect": case["opts"]["llcp"].get("connect") is not None}}):
+                R.count("stubborn_%s_terminated_in_activation" % case["env"]["entities"][0]["e"])
     R.case(case, nontrivial=True)
     for sig, what in V:
         R.violation(sig, what, case)
@@ -1276,6 +1794,9 @@ def real_device(name, clock, found=None):
     from vf.core import vclock
     hostlog = []
     idm, pmm = bytes.fromhex("0102030405060708"), bytes.fromhex("00F1000000014300")
+    sensb_res = bytes.fromhex("50E5DD3DC900000011008185")         # the SENSB_RES of the sense() docstring
+    # ATR_RES after D5 01: NFCID3t, DID, BSt, BRt, TO, PPt, general bytes
+    atr_res_tail = bytes.fromhex("01FE0102030405065354" "00" "00" "00" "08" "32") + b"Ffm\x01\x01\x11"
     logger = logging.getLogger("vf.c18.real")
     if name == "udp":
         mod = importlib.import_module("nfc.clf.udp")
@@ -1298,6 +1819,8 @@ def real_device(name, clock, found=None):
             if found is not None and b == found and b.endswith("F") and d[1:2] == b"\x00":
                 r = b"\x01" + idm + pmm
                 return b, bytearray(bytes([len(r) + 1]) + r), dev.addr
+            if found == "106B" and b == found and d[0:1] == b"\x05":
+                return b, bytearray(sensb_res), dev.addr
             raise nfc.clf.TimeoutError("no data")
         dev._send_data, dev._recv_data = send, recv
         return dev, hostlog
@@ -1327,6 +1850,8 @@ def real_device(name, clock, found=None):
                 if found is not None and self.brty == found and found.endswith("F") and bytes(data[1:2]) == b"\x00":
                     r = b"\x01" + idm + pmm
                     return bytearray(bytes([len(r) + 1]) + r)
+                if found == "106B" and self.brty == found and bytes(data[0:1]) == b"\x05":
+                    return bytearray(sensb_res)
                 raise mod.CommunicationError(struct.pack("<L", 0x80))
 
             def close(self):
@@ -1368,7 +1893,10 @@ def real_device(name, clock, found=None):
         clock.advance(0.001)
         if cmd_code == 0x4A:
             code = data[1]
-            want = {"106A": 0, "212F": 1, "424F": 2}.get(found)
+            want = {"106A": 0, "212F": 1, "424F": 2, "106B": 3}.get(found)
+            if want == 3 and code == 3:
+                # Tg, ATQB (SENSB_RES), ATTRIB_RES length, ATTRIB_RES: the chipset has activated the ISO tag
+                return bytearray(b"\x01\x01" + sensb_res + b"\x01\x00")
             if want is not None and code == want:
                 if code == 0 and modname in ("pn531",) or name == "arygonA":
                     # PN531: SENS_RES in the other byte order, cascade tag included in the NFCID1
@@ -1385,7 +1913,12 @@ def real_device(name, clock, found=None):
         if cmd_code == 0x08:
             return bytearray(b"\x00")
         if cmd_code in (0x46, 0x56):
+            if found == "dep":
+                return bytearray(b"\x00\x01" + atr_res_tail)         # status, Tg, ATR_RES from the NFCID3t on
             return bytearray(b"\x01")
+        if cmd_code == 0x42 and found == "106B":
+            # InCommunicateThru: DESELECT is acknowledged, WUPB is answered with the SENSB_RES
+            return bytearray(b"\x00" + (sensb_res if data[0:1] == b"\x05" else data[0:1]))
         return bytearray(b"")
     chip.command = command
     dev = object.__new__(getattr(mod, devcls))
@@ -1443,7 +1976,6 @@ def check_sense(case, o, R):
     tspecs = case["targets"]
     targets, calls, ret, exc = o["targets"], o["calls"], o["ret"], o["exc"]
     n = len(targets)
-    invalid = any(t.get("invalid") for t in tspecs)
     drv = case["driver"]
     sense_calls = [c for c in calls if c[0] != "mute"]
     if n >= 2:
@@ -1452,16 +1984,28 @@ def check_sense(case, o, R):
     for c in sense_calls:
         if isinstance(c[3], nfc.clf.UnsupportedTargetError):
             R.count("driver_said_unsupported")
-    # ---- never raises for >= 2 targets (invalid attributes are not judged, boundary (d)) -------------------
+    reach = [t for t, s in zip(targets, tspecs) if not s.get("invalid") and (s["brty"][-1] in "ABF" or s.get("atr_req"))]
+    if n >= 2 and any(t.get("invalid") for t in tspecs):
+        R.count("sense_invalid_in_list")
+        if drv != "world":
+            R.count("real_invalid_in_list")
+    # ---- never raises for >= 2 targets.  Boundary (d): a ValueError for a target with invalid attributes is not
+    #      judged - but only when it is that target which raised ("any target that is not supported or has invalid
+    #      attributes is just ignored"): a supported or unsupported target next to it must not raise ----------------
     if exc is not None:
-        if n >= 2 and not (invalid and isinstance(exc, ValueError)):
-            V.append(("sense/multi-target-raises/%s" % exc_sig(exc),
-                      "sense() with %d targets raised %r" % (n, exc)))
-        elif n == 1:
+        if n >= 2:
+            culprit = sense_culprit(exc, targets, reach, sense_calls, max(1, case.get("iterations") or 1))
+            if isinstance(exc, ValueError) and culprit is not None and tspecs[culprit].get("invalid"):
+                R.count("sense_invalid_target_raised_not_judged")
+            else:
+                V.append(("sense/multi-target-raises/%s" % exc_sig(exc),
+                          "sense() with %d targets raised %r (while handling target %s)" % (n, exc, culprit)))
+        else:
             R.count("sense_single_target_raised")
         return V, False
+    if n >= 2 and any(t.get("invalid") for t in tspecs):
+        R.count("sense_invalid_in_list_ignored")
     # ---- order / first found --------------------------------------------------------------------------------
-    reach = [t for t, s in zip(targets, tspecs) if not s.get("invalid") and (s["brty"][-1] in "ABF" or s.get("atr_req"))]
     for k, c in enumerate(sense_calls):
         if not reach or c[1] is not reach[k % len(reach)]:
             V.append(("sense/order", "driver call %d did not get the target expected from the order given" % k))
@@ -1470,6 +2014,8 @@ def check_sense(case, o, R):
     if found:
         R.count("sense_found_checked")
         first = found[0]
+        if drv != "world":
+            R.count("real_found_" + ("dep" if first[2].atr_res else first[2].brty))
         if ret is not first[2]:
             V.append(("sense/not-first-found", "sense() returned %s although the driver found %s first" % (ret, first[2])))
         if sense_calls[-1] is not first:
@@ -1506,6 +2052,34 @@ def check_sense(case, o, R):
     return V, bool(sense_calls)
 
 
+def sense_culprit(exc, targets, reach, sense_calls, iterations):
+    """index of the target sense() was handling when `exc` escaped: the driver call that raised it, else the loop
+    variable of the sense() frame in the traceback, else the first target in processing order that does not reach
+    the driver once all recorded driver calls are used up"""
+    for c in sense_calls:
+        if c[3] is exc:
+            return next((i for i, t in enumerate(targets) if t is c[1]), None)
+    tb = exc.__traceback__
+    while tb is not None:
+        code = tb.tb_frame.f_code
+        if code.co_name == "sense" and code.co_filename.replace("\\", "/").endswith("nfc/clf/__init__.py"):
+            cur = tb.tb_frame.f_locals.get("target")
+            for i, t in enumerate(targets):
+                if t is cur:
+                    return i
+        tb = tb.tb_next
+    k = 0
+    for _ in range(iterations):
+        for i, t in enumerate(targets):
+            if any(t is x for x in reach):
+                if k >= len(sense_calls):
+                    return i
+                k += 1
+            elif k == len(sense_calls):
+                return i
+    return None
+
+
 def do_sense(case, R):
     o = run_sense(case)
     V, reached = check_sense(case, o, R)
@@ -1522,35 +2096,101 @@ def do_sense(case, R):
 # =================================================================================================
 # exchange()
 # =================================================================================================
+def local_target(step):
+    import nfc.clf
+    lt = nfc.clf.LocalTarget(step.get("brty", "106A"))
+    lt.sensf_res = bytearray.fromhex("01 02FE010203040506 FFFFFFFFFFFFFFFF 12FC")
+    lt.sens_res, lt.sdd_res, lt.sel_res = bytearray(b"\x01\x01"), bytearray(b"\x08\x01\x02\x03"), bytearray(1)
+    lt.sensb_res = bytearray(12)
+    if step.get("dep"):
+        # "An P2P Target is selected when the atr_res attribute is set."
+        lt.sel_res = bytearray(b"\x40")
+        lt.sensf_res = bytearray.fromhex("01 01FE010203040506 0000000000000000 FFFF")
+        lt.atr_res = bytearray(b"\xD5\x01" + bytes.fromhex("01FE0102030405065354") + b"\x00\x00\x00\x08\x32Ffm\x01\x01\x13")
+    return lt
+
+
+def short_connect(clf, step):
+    """a short connect() run on the frontend under test (sequence step "connect")"""
+    n = [0]
+
+    def terminate():
+        n[0] += 1
+        return n[0] > step["j"]
+
+    def on_connect(obj):
+        return step["connect"] == "T"
+
+    def card_startup(target):
+        target.brty = "212F"
+        target.sensf_res = bytearray.fromhex("01 02FE010203040506 FFFFFFFFFFFFFFFF 12FC")
+        return target
+    opt = step["opt"]
+    if opt == "rdwr":
+        options = {"rdwr": {"on-connect": on_connect, "iterations": 1, "targets": step.get("targets", ["106A", "212F"]),
+                            "beep-on-connect": False}}
+    elif opt == "card":
+        options = {"card": {"on-connect": on_connect, "on-startup": card_startup}}
+    else:
+        options = {"llcp": {"on-connect": on_connect, "role": {"llcp-i": "initiator", "llcp-t": "target"}[opt]}}
+    return clf.connect(terminate=terminate, **options)
+
+
 def do_exchange(case, R):
     import nfc.clf
     from vf.core.vclock import VClock
-    from vf.sim import world
+    world = world_mod()
     clock = VClock()
     world.patch_time(clock)
     clf, dev = world.frontend(case["env"], clock)
     V = []
-    current = None          # what the latest discovery found (object) or None
-    prev = None
+    st = {"current": None, "prev": None}    # what the latest discovery found (object or None) / the one before
     judged = False
+
+    def track(name):
+        orig = getattr(clf, name)
+
+        def f(*a, **kw):
+            st["prev"], st["current"] = (st["current"] if st["current"] is not None else st["prev"]), None
+            r = orig(*a, **kw)              # an exception leaves "nothing found"
+            st["current"] = r
+            return r
+        setattr(clf, name, f)
+    track("sense")
+    track("listen")
     for step in case["steps"]:
         if step["op"] == "sense":
-            ts = build_targets([{"brty": b} for b in step["targets"]])
-            prev, current = current if current is not None else prev, None
+            ts = build_targets([{"brty": b} if isinstance(b, str) else b for b in step["targets"]])
+            if any(t.atr_req is not None for t in ts):
+                R.count("exchange_seq_sense_dep")
+            kw = {k: step[k] for k in ("iterations", "interval") if step.get(k) is not None}
+            if kw:
+                R.count("exchange_seq_sense_options")
             try:
-                current = clf.sense(*ts)
+                clf.sense(*ts, **kw)
             except (nfc.clf.UnsupportedTargetError, ValueError):
                 R.count("exchange_discovery_raised")
         elif step["op"] == "listen":
-            lt = nfc.clf.LocalTarget(step["brty"])
-            lt.sensf_res = bytearray.fromhex("01 02FE010203040506 FFFFFFFFFFFFFFFF 12FC")
-            lt.sens_res, lt.sdd_res, lt.sel_res = bytearray(b"\x01\x01"), bytearray(b"\x08\x01\x02\x03"), bytearray(1)
-            lt.sensb_res = bytearray(12)
-            prev, current = current if current is not None else prev, None
             try:
-                current = clf.listen(lt, 0.2)
+                clf.listen(local_target(step), 0.2)
             except (nfc.clf.UnsupportedTargetError, ValueError):
                 R.count("exchange_discovery_raised")
+        elif step["op"] == "connect":
+            n0 = len(dev.calls)
+            try:
+                r = short_connect(clf, step)
+            except world.Bound as e:
+                R.inconc("run-away guard in a connect() step of an exchange sequence: %s" % e)
+                break
+            R.count("exchange_seq_connect_steps")
+            R.seen("exchange_seq_connect_returns", type_name(r))
+            # inside connect(): every data exchange is with the target of the latest discovery
+            for c in dev.calls[n0:]:
+                if c.op.startswith("send_") and not c.fresh:
+                    V.append(("exchange/stale-target/inside-connect", "a data exchange inside connect() handed the "
+                              "driver a target that the latest discovery did not return"))
+                    break
+            st["after_connect"] = True
         else:
             n0 = len(dev.calls)
             ret = exc = None
@@ -1560,7 +2200,10 @@ def do_exchange(case, R):
                 exc = e
             new = dev.calls[n0:]
             judged = True
+            current, prev = st["current"], st["prev"]
             R.count("exchange_checked")
+            if st.pop("after_connect", None):
+                R.count("exchange_after_connect")
             if current is None:
                 R.count("exchange_after_nothing")
                 if new:
@@ -1572,6 +2215,8 @@ def do_exchange(case, R):
             else:
                 if prev is not None:
                     R.count("exchange_after_new_target")
+                if current.atr_res is not None or getattr(current, "atr_req", None) is not None:
+                    R.count("exchange_dep_target")
                 want = "send_cmd_recv_rsp" if isinstance(current, nfc.clf.RemoteTarget) else "send_rsp_recv_cmd"
                 if len(new) != 1:
                     V.append(("exchange/driver-calls", "%d driver calls for one exchange()" % len(new)))
@@ -1584,6 +2229,180 @@ def do_exchange(case, R):
                         V.append(("exchange/direction", "exchange() used %s for a %s" % (new[0].op, type(current).__name__)))
                     R.seen("exchange_directions", new[0].op)
     R.case(case, nontrivial=judged)
+    for sig, what in V:
+        R.violation(sig, what, case)
+    return V
+
+
+# -------------------------------------------------------------------------------------------------
+# exchange() against a concurrent sense()/listen(): who gets the frontend lock first is decided here
+# -------------------------------------------------------------------------------------------------
+class GateLock(object):
+    """stands in for ContactlessFrontend.lock and delegates to a real threading.Lock; a thread registered in
+    `gates` announces that it has arrived at the lock and competes for it only once the harness says so (the other
+    contender wins the race)"""
+
+    def __init__(self):
+        import threading
+        self._lock = threading.Lock()
+        self._ident = threading.get_ident
+        self.gates = {}
+
+    def acquire(self, *a, **kw):
+        g = self.gates.get(self._ident())
+        if g is not None and not g["passed"]:
+            g["passed"] = True
+            g["arrived"].set()
+            if not g["go"].wait(60):
+                g["timeout"] = True
+        return self._lock.acquire(*a, **kw)
+
+    def release(self):
+        self._lock.release()
+
+    def locked(self):
+        return self._lock.locked()
+
+    def __enter__(self):
+        self.acquire()
+        return self
+
+    def __exit__(self, *exc):
+        self.release()
+
+
+XRACE_ENV = {"entities": [{"e": "tag", "type": "t2t"}, {"e": "tag", "type": "t3t"},
+                          {"e": "reader", "tech": "212F", "cmds": ["rr", "poll", "rr", "poll"], "sessions": 50},
+                          {"e": "p2p-target", "tech": "acm", "end": "never", "sessions": 50},
+                          {"e": "p2p-initiator", "tech": "424F", "end": "never", "sessions": 50}],
+             "unsupported": ["848A"]}
+XRACE_FIRST = [{"op": "sense", "targets": ["106A"]}, {"op": "sense", "targets": ["212F"]},
+               {"op": "sense", "targets": ["106B", "106A"]},
+               {"op": "sense", "targets": [{"brty": "106A", "atr_req": 16}]},
+               {"op": "listen", "brty": "212F"}, {"op": "listen", "dep": True}]
+XRACE_SECOND = [{"op": "sense", "targets": ["106B"]}, {"op": "sense", "targets": ["848A"]},
+                {"op": "sense", "targets": ["848A", "106B"]}, {"op": "listen", "brty": "106A"},
+                {"op": "listen", "brty": "106B"},
+                {"op": "sense", "targets": ["106A"]}, {"op": "sense", "targets": ["212F"]},
+                {"op": "sense", "targets": [{"brty": "424F", "atr_req": 20}]},
+                {"op": "listen", "brty": "212F"}, {"op": "listen", "dep": True}]
+
+
+def gen_xrace_case(rng, k=None):
+    if k is not None:           # the grid first x second, dealt over the shards
+        first, second = XRACE_FIRST[k % len(XRACE_FIRST)], XRACE_SECOND[(k // len(XRACE_FIRST)) % len(XRACE_SECOND)]
+        gone = (k // (len(XRACE_FIRST) * len(XRACE_SECOND))) % 2 == 1
+    else:
+        first, second, gone = rng.choice(XRACE_FIRST), rng.choice(XRACE_SECOND), rng.random() < 0.3
+    case = {"kind": "xrace", "env": XRACE_ENV, "first": first, "second": second,
+            "data": rng.choice(["3000", "0600ffff0100", "3004"])}
+    if gone:
+        case["second"] = first          # the same discovery again, after the counterpart has been taken away
+        case["first_leaves"] = True
+    return case
+
+
+def do_xrace(case, R):
+    """Two threads on one frontend ("The methods of the ContactlessFrontend class are thread-safe").  Thread W
+    enters exchange(); the main thread's sense()/listen() gets the frontend lock first and completes; then W
+    proceeds.  When W finally exchanges, the latest discovery is the main thread's: the driver must not see the
+    target of the earlier one."""
+    import threading
+    import nfc.clf
+    from vf.core.vclock import VClock
+    world = world_mod()
+    clock = VClock()
+    world.patch_time(clock)
+    clf, dev = world.frontend(case["env"], clock)
+    clf.lock = GateLock()
+    V = []
+
+    def discover(step):
+        try:
+            if step["op"] == "sense":
+                return clf.sense(*build_targets([{"brty": b} if isinstance(b, str) else b for b in step["targets"]]))
+            return clf.listen(local_target(step), 0.2)
+        except (nfc.clf.UnsupportedTargetError, ValueError):
+            return None
+    prev = discover(case["first"])
+    if prev is None:
+        R.case(case, nontrivial=False)
+        R.count("xrace_first_found_nothing")
+        return V
+    gate = {"arrived": threading.Event(), "go": threading.Event(), "passed": False}
+    result = {}
+
+    def worker():
+        clf.lock.gates[threading.get_ident()] = gate
+        try:
+            result["ret"] = clf.exchange(bytearray.fromhex(case["data"]), 0.05)
+        except BaseException as e:          # noqa
+            result["exc"] = e
+    th = threading.Thread(target=worker, name="c18-xrace")
+    th.daemon = True
+    th.start()
+    for _ in range(1200):                   # wall clock guard only: <= 60 s, then inconclusive
+        if gate["arrived"].wait(0.05) or not th.is_alive():
+            break
+    if not gate["arrived"].is_set():
+        th.join(1)
+        if th.is_alive():
+            R.inconc("xrace: exchange() neither reached the frontend lock nor returned")
+        else:
+            R.count("xrace_no_lock_arrival")        # exchange() ended without asking for the lock: sequential use
+        R.case(case, nontrivial=False)
+        return V
+    if case.get("first_leaves") and dev.partner is not None:
+        dev.partner.gone = True
+    n_before = len(dev.calls)
+    try:
+        current = discover(case["second"])
+    except BaseException:           # never leave the other thread parked at the gate
+        gate["go"].set()
+        th.join(30)
+        raise
+    mark = len(dev.calls)
+    early = [c for c in dev.calls[n_before:mark] if c.op.startswith("send_")]
+    gate["go"].set()
+    th.join(30)
+    if th.is_alive() or gate.get("timeout"):
+        R.inconc("xrace: the exchange() thread did not finish after the lock was free")
+        R.case(case, nontrivial=False)
+        return V
+    new = [c for c in dev.calls[mark:] if c.op.startswith("send_")]
+    ret, exc = result.get("ret"), result.get("exc")
+    R.count("xrace_checked")
+    R.count("xrace_first_" + ("listen" if isinstance(prev, nfc.clf.LocalTarget) else "sense")
+            + ("_dep" if prev.atr_res is not None else ""))
+    if early:
+        V.append(("exchange/race/lock-not-held", "the exchange() of the waiting thread reached the driver while "
+                  "another thread's discovery held the frontend lock"))
+    if current is None:
+        R.count("xrace_second_nothing")
+        if new:
+            stale = new[0].target is prev
+            V.append(("exchange/race/" + ("stale-target-after-nothing-found" if stale else "driver-call-without-target"),
+                      "exchange() that got the lock after another thread's discovery had found nothing called %s with "
+                      "%s" % (new[0].op, "the target of the EARLIER discovery" if stale else "some target")))
+        elif not (exc is None and ret is None) and not isinstance(exc, IOError):
+            V.append(("exchange/race/not-None-without-target", "exchange() without a current target gave %r / %r"
+                      % (ret, exc)))
+    else:
+        R.count("xrace_second_other")
+        want = "send_cmd_recv_rsp" if isinstance(current, nfc.clf.RemoteTarget) else "send_rsp_recv_cmd"
+        if exc is not None and not isinstance(exc, nfc.clf.CommunicationError):
+            V.append(("exchange/race/raises/" + exc_sig(exc), "exchange() raised %r" % (exc,)))
+        elif len(new) != 1:
+            V.append(("exchange/race/driver-calls", "%d driver calls for one exchange()" % len(new)))
+        else:
+            if new[0].target is not current:
+                stale = new[0].target is prev
+                V.append(("exchange/race/%s" % ("stale-target" if stale else "wrong-target"),
+                          "exchange() that got the lock after another thread's discovery handed the driver %s"
+                          % ("the target of the EARLIER discovery" if stale else "a target no discovery returned")))
+            if new[0].op != want:
+                V.append(("exchange/race/direction", "exchange() used %s for a %s" % (new[0].op, type(current).__name__)))
+    R.case(case, nontrivial=True)
     for sig, what in V:
         R.violation(sig, what, case)
     return V
@@ -1604,6 +2423,10 @@ def run(desc, R, rng):
                       "callbacks": [(e["opt"], e["name"], type_name(e["ret"]) if e["name"] == "startup" else
                                     (bool(e["ret"]), type(e["ret"]).__name__)) for e in tr.ev if e["k"] == "cb"][:12],
                       "driver_calls": [e["call"].op for e in tr.ev if e["k"] == "drv"][:30]})
+    for i in range(desc.get("sustained", 0)):
+        do_connect(gen_sustained_live_case(rng) if i % 3 == 2 else gen_sustained_case(rng), R)
+    for i in range(desc.get("stubborn", 0)):
+        do_connect(gen_stubborn_case(rng, i), R)
     for i in range(desc["sense"]):
         do_sense(gen_sense_case(rng), R)
     # the hypothesis witness and its neighbours on every real driver, then random lists
@@ -1616,6 +2439,12 @@ def run(desc, R, rng):
         do_sense(gen_sense_case(rng, driver=rng.choice(REAL_DRIVERS)), R)
     for i in range(desc["exchange"]):
         do_exchange(gen_exchange_case(rng), R)
+    # exchange() against a concurrent discovery: the grid first discovery x second discovery (x counterpart taken
+    # away) dealt over the shards, then random points
+    grid = 2 * len(XRACE_FIRST) * len(XRACE_SECOND)
+    todo = [k for k in range(grid) if k % nsh == shard]
+    for i in range(desc.get("xrace", 0)):
+        do_xrace(gen_xrace_case(rng, todo[i] if i < len(todo) else None), R)
     # option group combinations against the reference model: every cell of rdwr state x llcp state x card state x
     # device class, dealt round-robin; per cell one sample of the remaining dimensions that does not depend on the
     # seed and `combo`-1 that do
@@ -1635,3 +2464,5 @@ def replay(case, R):
         do_sense(case, R)
     elif k == "exchange":
         do_exchange(case, R)
+    elif k == "xrace":
+        do_xrace(case, R)
